@@ -7,7 +7,7 @@ FAST = ["targets/audio_metrics.cpp"]
 
 def jobs(tier):
     q = tier == "quick"
-    return [Job("c04_fidelity", "flt-asan", "random", workers=W, cases=20 if q else 400, maxtime=50 if q else 800, refs=("ref-flt",), fastsources=FAST, case_timeout=300),
+    return [Job("c04_fidelity", "flt-asan", "random", workers=W, cases=40 if q else 400, maxtime=60 if q else 800, refs=("ref-flt",), fastsources=FAST, case_timeout=300),
             # projection clause of C04 ("projection round-trips every input channel, identity and level kept"): the high-rate round trip of the C10 matrix target
             Job("c10_matrix", "flt-asan", "random", workers=8, cases=12 if q else 300, maxtime=60 if q else 400, refs=("ref-flt",), name="c10_matrix.flt-asan.random.c04")]
 
